@@ -27,6 +27,10 @@ package gjkr
 //
 // Observation: the state's message slices before and after Receive; "accepted"
 // = exactly one slice grew by exactly this payload.
+//
+// Streams (AdmissionLoop.tla): sequences of 1..3 messages are delivered to one
+// phase-1 state (member 3 inactive) and phaseMessages is compared with the
+// specified list of admitted messages, in order.
 
 import (
 	"context"
@@ -263,4 +267,33 @@ func TestVerif_C12_Gjkr(t *testing.T) {
 	}
 	verifadm.Run(t, rep, w, steps, cases, drivers)
 	rep.Note("phases 4 and 8: %d states built by the real Initiate (receiver x exclusion)", len(h.cache))
+
+	// streams of messages (specs/Admission/AdmissionLoop.tla): what the state keeps after 1..3 deliveries
+	const seqStep = "ephemeralKeyPairGenerationState"
+	verifadm.RunSequences(t, rep, "pkg/beacon/gjkr/"+seqStep, func(q *verifadm.Sequence) (verifadm.LoopState, string, error) {
+		var out verifadm.LoopState
+		st0, err := h.stateByNext(&verifadm.Case{Recv: q.Msgs[0].Recv, Excl: q.Excl}, seqStep)
+		if err != nil {
+			return out, "", err
+		}
+		st := st0.(*ephemeralKeyPairGenerationState)
+		number := map[*EphemeralPublicKeyMessage]int{}
+		for i, c := range q.Msgs {
+			p, err := h.payload(c, "EphemeralPublicKeyMessage")
+			if _, _, e, stop := verifadm.Dropped(err); stop {
+				if e != nil {
+					return out, "", e
+				}
+				continue // dropped by the decoder
+			}
+			number[p.(*EphemeralPublicKeyMessage)] = i + 1
+			if err := st.Receive(h.w.Net(c, p)); err != nil {
+				return out, "", err
+			}
+		}
+		for _, m := range st.phaseMessages {
+			out.Stored = append(out.Stored, number[m]) // 0 = a message that was never delivered
+		}
+		return out, "", nil
+	})
 }
